@@ -9,6 +9,7 @@ import (
 	"go.etcd.io/bbolt"
 	"sync"
 	"verif/harness/internal/core"
+	"verif/harness/internal/ql"
 	"verif/harness/internal/qx"
 	"verif/harness/internal/schema"
 )
@@ -204,6 +205,29 @@ func runC19(c *core.Ctx, idx int) {
 	os := newC19Store(env.w, r)
 
 	c19Empty(c, r, st, g0(r, env.w))
+	// the first queries of this object store: literals that differ in letter case or inner blanks only, one right after
+	// the other - each selects the objects holding exactly its own string
+	for _, pair := range [][2]string{{"a", "A"}, {"A", "a"}, {"ab", "AB"}, {"a b", "a  b"}, {"a  b", "a b"}} {
+		for _, lit := range pair {
+			text := "s = " + ql.Lit(lit) + " sort by id"
+			ents, n, err := os.QueryEntities(text)
+			var got, want []string
+			for _, e := range ents {
+				got = append(got, e.id)
+			}
+			for _, id := range env.w.Ids(qx.Things) {
+				if sv, ok := env.w.Rows[qx.Things][id].V["s"].(string); ok && sv == lit {
+					want = append(want, id)
+				}
+			}
+			c.Eval()
+			c.Count("literal_variant_queries", 1)
+			if err != nil || !sameIds(got, want) || int(n) != len(want) {
+				c.Violationf("C19 object store: a literal differing from the previous query's in letter case or blanks only selects the wrong objects", map[string]any{"query": text, "asked_in_this_order": pair},
+					"query %q: %q count %d err=%v, the objects holding %q are %q", text, got, n, err, lit, want)
+			}
+		}
+	}
 	var replay []c19Replay
 	defer func() { c19Concurrent(c, os, replay) }()
 	g := &qx.Gen{R: r, W: env.w, Store: qx.Things, ScalarOnly: true}
